@@ -436,6 +436,26 @@ func (r *runner) mds(in input) {
 		}
 		if !ok || !bytes.Equal(out, want) {
 			r.viol("ds-bytes", fmt.Sprintf("MarshalDigitallySigned(sig len %d): not the RFC 5246 DigitallySigned encoding", len(sig)), in)
+			return
+		}
+		// the base64 / JSON wrappers go through the same codec: they must round-trip too
+		if in.Here < 0 && in.Copy == 0 {
+			d := ct.DigitallySigned{HashAlgorithm: ct.HashAlgorithm(in.H), SignatureAlgorithm: ct.SignatureAlgorithm(in.A), Signature: sig}
+			js, e1 := json.Marshal(d)
+			var back ct.DigitallySigned
+			e2 := json.Unmarshal(js, &back)
+			if e1 != nil || e2 != nil || back.HashAlgorithm != d.HashAlgorithm || back.SignatureAlgorithm != d.SignatureAlgorithm || !bytes.Equal(back.Signature, sig) {
+				r.viol("ds-json-roundtrip", fmt.Sprintf("DigitallySigned JSON/base64 form does not round-trip (sig len %d, %v, %v)", len(sig), e1, e2), in)
+			}
+		}
+		if in.Here < 0 && in.Copy == 1 {
+			d := xct.DigitallySigned{HashAlgorithm: xct.HashAlgorithm(in.H), SignatureAlgorithm: xct.SignatureAlgorithm(in.A), Signature: sig}
+			js, e1 := json.Marshal(d)
+			var back xct.DigitallySigned
+			e2 := json.Unmarshal(js, &back)
+			if e1 != nil || e2 != nil || back.HashAlgorithm != d.HashAlgorithm || back.SignatureAlgorithm != d.SignatureAlgorithm || !bytes.Equal(back.Signature, sig) {
+				r.viol("ds-json-roundtrip", fmt.Sprintf("x509/ct DigitallySigned JSON/base64 form does not round-trip (sig len %d, %v, %v)", len(sig), e1, e2), in)
+			}
 		}
 	} else if ok && (in.Here < 0 || in.Here >= len(want)) {
 		r.viol("ds-rejects-valid", fmt.Sprintf("marshalDigitallySignedHere(sig len %d, here %d): %v", len(sig), in.Here, err), in)
@@ -902,6 +922,9 @@ func (r *runner) sctin(in input) {
 	r.emit(in, vh.App("CSctInput", vh.NI(in.Version), vh.N(in.TS), vh.NI(in.Leaf), e.coq(), optSpec(out, err == nil)),
 		fmt.Sprintf("sctin|%d|%d|%d|%d|%d|%d", in.Version, in.Leaf, in.EType, len(e.x509), len(e.tbs), len(e.ext)))
 	want, ok := refSCTInput(in.Version, in.Leaf, e)
+	if in.Version == 0 && in.Leaf == 0 {
+		r.spec(vh.App("SSctInput", vh.N(in.TS), e.coq(), optSpec(want, ok)), in, fmt.Sprintf("ssct|%d|%d|%d|%d", e.etype, len(e.x509), len(e.tbs), len(e.ext)))
+	}
 	if ok != (err == nil) {
 		r.viol("sct-input-domain", fmt.Sprintf("SerializeSCTSignatureInput(version %d, leaf type %d, entry type %d, cert len %d/%d, ext len %d): err=%v, RFC 6962 input exists=%v",
 			in.Version, in.Leaf, in.EType, len(e.x509), len(e.tbs), len(e.ext), err, ok), in)
@@ -957,6 +980,9 @@ func (r *runner) sthin(in input) {
 	r.emit(in, vh.App("CSthInput", vh.NI(in.Version), vh.N(in.Size), vh.N(in.TS), vh.Bytes(root[:]), optSpec(out, err == nil)),
 		fmt.Sprintf("sthin|%d|%d|%d", in.Version, in.Size, in.TS))
 	want, ok := refSTHInput(in.Version, in.Size, in.TS, root)
+	if ok {
+		r.spec(vh.App("SSthInput", vh.N(in.TS), vh.N(in.Size), vh.Bytes(root[:]), spec(want)), in, fmt.Sprintf("ssth|%d|%d", in.Size, in.TS))
+	}
 	if ok != (err == nil) {
 		r.viol("sth-input-domain", fmt.Sprintf("SerializeSTHSignatureInput(version %d): err=%v", in.Version, err), in)
 	} else if ok && !bytes.Equal(out, want) {
@@ -1092,7 +1118,48 @@ func (r *runner) vsth(in input) {
 	r.checkVerify(in, "VerifySTHSignature", k, err == nil, rsaOK, ecOK, ok && refRSA, ok && refEC)
 }
 
+// ---------- stream "spec": the Coq RFC 6962 layouts against the cryptobyte reference encoders ----------
+func (r *runner) spec(term string, in input, key string) {
+	if in.GoOnly {
+		return
+	}
+	in.Kind = "spec-" + in.Kind
+	r.c.Case("spec", term, in, key)
+}
+
+func (r *runner) specLeaf(in input) {
+	e := in.entry()
+	want, ok := refEntry(0, 0, e)
+	r.spec(vh.App("SLeaf", e.coq(), optSpec(want, ok)), in, fmt.Sprintf("sleaf|%d|%d|%d|%d", e.etype, len(e.x509), len(e.tbs), len(e.ext)))
+}
+
+func (r *runner) specChain(in input, pre []byte, certs [][]byte) {
+	enc, ok := refChain(certs)
+	cs := make([]string, len(certs))
+	for i, c := range certs {
+		cs[i] = spec(c)
+	}
+	if in.Precert {
+		if ok {
+			enc = append(append(be(uint64(len(pre)), 3), pre...), enc...)
+		}
+		r.spec(vh.App("SPrecertChain", spec(pre), vh.List0(cs, "(list (N*bytes))"), optSpec(enc, ok)), in, fmt.Sprintf("spchain|%d|%d", len(pre), len(certs)))
+		return
+	}
+	r.spec(vh.App("SChain", vh.List0(cs, "(list (N*bytes))"), optSpec(enc, ok)), in, fmt.Sprintf("schain|%d|%x", len(certs), sha256.Sum256(enc)))
+}
+
 func (r *runner) run(in input) {
+	if strings.HasPrefix(in.Kind, "spec-") {
+		in.Kind = strings.TrimPrefix(in.Kind, "spec-")
+		switch in.Kind {
+		case "leaf":
+			r.specLeaf(in)
+		case "sctin", "sthin":
+			r.run(in) // emits the spec case again next to the implementation case
+		}
+		return
+	}
 	switch in.Kind {
 	case "multi":
 		for _, it := range in.Items {
@@ -1399,6 +1466,7 @@ func gen(c *vh.Ctx) {
 					e.tbs = field(c, cl)
 				}
 				enc, _ := refEntry(0, 0, e)
+				r.specLeaf(input{Kind: "leaf", EType: et, TS: e.ts, X509: pack(e.x509), IKH: hex.EncodeToString(e.ikh[:]), TBS: pack(e.tbs), Ext: pack(e.ext), Here: -1})
 				r.run(input{Kind: "leaf", B: pack(enc), Here: -1})
 				if all {
 					r.run(input{Kind: "leaf", B: pack(append(append([]byte{}, enc...), c.Bytes(1+c.Intn(3))...)), Here: -1})
@@ -1464,10 +1532,12 @@ func gen(c *vh.Ctx) {
 				certs = append(certs, field(c, l))
 			}
 			enc, _ := refChain(certs)
+			var p []byte
 			if pre {
-				p := field(c, c.Pick([]int{0, 1, 30, 256}))
+				p = field(c, c.Pick([]int{0, 1, 30, 256}))
 				enc = append(append(be(uint64(len(p)), 3), p...), enc...)
 			}
+			r.specChain(input{Kind: "chain", Precert: pre, B: pack(enc), Here: -1}, p, certs)
 			r.run(input{Kind: "chain", Precert: pre, B: pack(enc), Here: -1})
 			if len(enc) > 60000 && !th {
 				if !pre {
